@@ -11,8 +11,9 @@ from . import chcheck
 def main():
     a = parse_args("C18")
     sys.path.insert(0, str(ch.HARNESS))
-    mods = [("h_c18_s0", 120, None), ("h_c18_s1", 300, None), ("h_c18", 60, lambda n: n == "bool_constant")]
+    mods = [("h_c18_s0", 120, None), ("h_c18_s1", 300, None), ("h_c18_ctl", 120, (lambda n: n.endswith("len2")) if a.tier == "quick" else None), ("h_c18", 60, lambda n: n == "bool_constant")]
     if a.tier == "thorough":
+        mods = [m if m[0] != "h_c18_ctl" else ("h_c18_ctl", 900, None) for m in mods]
         mods += [("h_c18_s2", 1500, None), ("h_c18_s3", 2400, lambda n: n.startswith(("bank_atlas", "tree_name_atlas", "method_string")))]
     rep, cov, assumptions = chcheck.run(
         "C18", a.tier, a.seed, mods, jobs=min(a.jobs, 12),
